@@ -157,4 +157,15 @@ PROPS = {
         assumptions=["an answer released 4 ms after the previous one is consumed after it (a disagreement is re-checked by the thorough tier's repeat)", "a peer that never answers makes Head return the context error unless a quorum formed first"],
         timeout={"quick": 900, "thorough": 3000},
     ),
+    "C13": dict(
+        props_files=["GoHeader/Props/C13.lean"], gen=["statusToError"],
+        canon=lambda l: l.split(" => ")[0], nontrivial=lambda l: " n=1 " not in l,
+        rule="real p2p.Exchange.Get / GetByHeight against 1..4 scripted trusted peers on a mocknet; answers: the requested header, a valid header of another height / of a fork, wrong chain, failing Validate, garbage bytes, "
+             "truncated frame, more responses than asked, unknown status code, empty body, empty stream, NOT_FOUND, reset, hang; released in a chosen arrival order; every single answer, ordered pairs, seeded random 2..4 peers; "
+             "distinct = distinct (operation, answers, order); non-trivial = more than one trusted peer",
+        trusted_base=[KERNEL, GOTOLEAN + " for convertStatusCodeToError", HARNESS_TB,
+                      "performRequest's goroutines are hand-modelled as 'first valid answer in arrival order'; the harness' reading of which scripted answers are valid (Oracle/C13.lean gansOf?)"],
+        assumptions=["answers released 4 ms apart are consumed in that order", "GetByHeight is not read as binding the returned header's height (the property does not say so)"],
+        timeout={"quick": 900, "thorough": 3000},
+    ),
 }
